@@ -452,7 +452,7 @@ def binding_orders(nd):
             yield list(perm)
 
 
-def make_driver_class(P, decl, cls_attrs, vectorized, seen):
+def make_driver_class(P, decl, cls_attrs, vectorized, seen, default_exe="default-exe"):
     from molli.pipeline.driver import DriverBase
     kw = {}
     if "exe" in decl: kw["executable"] = decl["exe"]
@@ -469,7 +469,9 @@ def make_driver_class(P, decl, cls_attrs, vectorized, seen):
         return (self.executable, out)
     job = P.Job(return_files=("o.txt",), **kw).prep(prep)
     job.post(post)
-    ns = {"default_executable": "default-exe", "job": job}
+    ns = {"job": job}
+    if default_exe is not None:
+        ns["default_executable"] = default_exe
     if vectorized:
         vj = P.Job.vectorize(job)
         vj.reduce(lambda self, outs, inp, *a, **k: (self.executable, list(outs)))
@@ -500,16 +502,19 @@ NO_INST = dict(exe=None, nprocs=None, mem=None, env=None)
 FIELDS = ("executable", "nprocs", "memory", "envars")
 
 
-def run_binding_case(P, decl, events, vectorized, same_class=False, lazy=False):
+def run_binding_case(P, decl, events, vectorized, same_class=False, lazy=False, cdecls=None, world=None):
     """events: ("C", i, cls_attrs, settings) | ("S", i, settings) | ("U", i) | ("K", i)      create / reassign / use at once
                ("G", i, h) | ("GK", i, h) | ("P", h)      h = d_i.job / h = type(d_i).job kept in a variable; h.prepare(..)
+               ("N", i, k, args)     d_i = Class_k(**args) through the REAL constructor (lookup in `world`, see ctor_cases);
+                                     cdecls[k] = (default_executable | None, class attributes)
     same_class: drivers created with equal class attributes are instances of ONE class (otherwise each driver has a
     subclass of its own); lazy (vectorised jobs): the kept thing is the generator returned by prepare, consumed at P.
     -> (observations per event, violations)"""
     seen = []
-    base = make_driver_class(P, decl, {}, vectorized, seen)
-    drivers, classes, cur, held, shared_cls = {}, {}, {}, {}, {}
+    base = make_driver_class(P, decl, {}, vectorized, seen, "default-exe" if cdecls is None else None)
+    drivers, classes, cur, held, shared_cls, ctor_cls = {}, {}, {}, {}, {}, {}
     obs, viol = [], []
+    brief = lambda evs_: [e[:3] if e[0] in ("G", "GK", "N") else e[:2] for e in evs_]
 
     def prepare_and_look(j, arg, gen=None):
         """call prepare on a bound job (or consume the generator it returned earlier): what prep saw as self.*"""
@@ -534,6 +539,60 @@ def run_binding_case(P, decl, events, vectorized, same_class=False, lazy=False):
         return [n for k, n in enumerate(FIELDS) if all(g[k] != w[k] for w in accepted)]
 
     for ev in events:
+        if ev[0] in ("S", "U", "K", "G", "GK") and ev[1] not in drivers:
+            obs.append(None)                                    # the variable d_i was never bound (its constructor refused)
+            continue
+        if ev[0] == "N":
+            _, i, k, a = ev
+            dflt, ca = cdecls[k]
+            if k not in ctor_cls:
+                attrs = {}
+                if "exe" in ca: attrs["executable"] = ca["exe"]
+                if "nprocs" in ca: attrs["nprocs"] = ca["nprocs"]
+                if "env" in ca: attrs["envars"] = dict(ca["env"])
+                if dflt is not None: attrs["default_executable"] = world.real(dflt)
+                ctor_cls[k] = type(f"Cls{k}", (base,), attrs)
+            kw = {}
+            if a.get("exe") is not None: kw["executable"] = world.real(a["exe"])
+            if a.get("nprocs") is not None: kw["nprocs"] = a["nprocs"]
+            if a.get("mem") is not None: kw["memory"] = a["mem"]
+            if a.get("env") is not None: kw["envars"] = dict(a["env"])
+            if a["mode"] != "default":
+                kw["check_exe"], kw["find"] = a["mode"][0] == "T", a["mode"][1] == "T"
+            raised = "FileNotFoundError"
+            try:
+                d = ctor_cls[k](**kw)
+            except FileNotFoundError:
+                d = None
+            except Exception as e:                           # any other refusal is judged like a refusal
+                d, raised = None, type(e).__name__
+            # oracle, from the property text: the instance carries the executable, processor count and environment IT
+            # was given -- the name as given or the place where THAT name is found -- whatever was constructed before
+            req = a.get("exe") or dflt
+            req_real, loc = world.real(req), world.loc(req)
+            if d is None:
+                obs.append(("refused",))
+                if loc is not None:
+                    viol.append(("C17:construct:refused-although-its-executable-is-reachable",
+                                 f"driver {i} = Cls{k}({kw}) was refused ({raised}); {req!r} is at {world.canon(loc)}; events {brief(events)}"))
+                continue
+            got = (d.executable, d.nprocs, d.memory, None if d.envars is None else dict(d.envars))
+            obs.append(("new",) + got)
+            want_np = a["nprocs"] if a.get("nprocs") is not None else 1
+            what = []
+            if d.executable not in {req_real, loc or req_real}: what.append("executable")
+            if d.nprocs != want_np: what.append("nprocs")
+            if d.memory != a.get("mem"): what.append("memory")
+            if (d.envars or {}) != (a.get("env") or {}): what.append("envars")
+            if what:
+                viol.append(("C17:construct:instance-differs-from-its-arguments:" + "+".join(what),
+                             f"driver {i} = Cls{k}({ {x: (world.canon(y) if isinstance(y, str) else y) for x, y in kw.items()} }) holds executable="
+                             f"{world.canon(str(d.executable))!r} nprocs={d.nprocs} memory={d.memory} envars={d.envars}; {req!r} leads to "
+                             f"{world.canon(str(loc))}; events {brief(events)}"))
+            drivers[i], classes[i] = d, ctor_cls[k]
+            cur[i] = (ca, dict(exe=d.executable if "executable" not in what else (loc or req_real), nprocs=want_np,
+                               mem=a.get("mem"), env=a.get("env")))
+            continue
         if ev[0] == "C":
             _, i, ca, s = ev
             attrs = {}
@@ -569,7 +628,7 @@ def run_binding_case(P, decl, events, vectorized, same_class=False, lazy=False):
             if what:
                 viol.append(("C17:bind:settings-of-another-driver:" + "+".join(what),
                              f"driver {i} ({s}) was bound with executable={got[0]!r} nprocs={got[1]} memory={got[2]} envars={got[3]} "
-                             f"after events {[e[:3] if e[0] in ('G', 'GK') else e[:2] for e in events]}"))
+                             f"after events {brief(events)}"))
         elif ev[0] in ("G", "GK"):
             _, i, h = ev
             j = drivers[i].job if ev[0] == "G" else classes[i].job
@@ -583,7 +642,7 @@ def run_binding_case(P, decl, events, vectorized, same_class=False, lazy=False):
             if what:
                 viol.append(("C17:bind:settings-of-another-driver:" + "+".join(what),
                              f"the job obtained through driver {i} ({s}) carries executable={got[0]!r} nprocs={got[1]} memory={got[2]} "
-                             f"envars={got[3]} after events {[e[:3] if e[0] in ('G', 'GK') else e[:2] for e in events]}"))
+                             f"envars={got[3]} after events {brief(events)}"))
         else:
             _, h = ev
             r = held.get(h)
@@ -606,7 +665,9 @@ def run_binding_case(P, decl, events, vectorized, same_class=False, lazy=False):
                 viol.append(("C17:bind:held-job-settings-of-another-driver:" + "+".join(what),
                              f"the job obtained through driver {i} ({r['s']}) and kept in a variable built its input with "
                              f"executable={got[0]!r} nprocs={got[1]} memory={got[2]} envars={got[3]}; events "
-                             f"{[e[:3] if e[0] in ('G', 'GK') else e[:2] for e in events]}"))
+                             f"{brief(events)}"))
+    if world is not None:
+        viol = [(sig, world.canon(text)) for sig, text in viol]      # messages do not depend on the scratch location
     return obs, viol
 
 
@@ -615,18 +676,19 @@ def cq_bound(o):
     return f"(mk_bound {cq_o(exe)} {int(npr)}%N {int(mem)}%N {cq_d(list((envd or {}).items()))})"
 
 
+def cq_bevent(ev):
+    if ev[0] == "C": return f"BCreate {ev[1]}%N {cq_settings(ev[2])} {cq_settings(ev[3])}"
+    if ev[0] == "S": return f"BSet {ev[1]}%N {cq_settings(ev[2])}"
+    if ev[0] == "U": return f"BUse {ev[1]}%N"
+    if ev[0] == "K": return f"BUseCls {ev[1]}%N"
+    if ev[0] == "G": return f"BGet {ev[1]}%N {ev[2]}%N"
+    if ev[0] == "GK": return f"BGetCls {ev[1]}%N {ev[2]}%N"
+    if ev[0] == "P": return f"BPrep {ev[1]}%N"
+    raise ValueError(ev)
+
+
 def cq_bcase(decl, events, obs):
-    evs = []
-    for ev in events:
-        if ev[0] == "C": evs.append(f"BCreate {ev[1]}%N {cq_settings(ev[2])} {cq_settings(ev[3])}")
-        elif ev[0] == "S": evs.append(f"BSet {ev[1]}%N {cq_settings(ev[2])}")
-        elif ev[0] == "U": evs.append(f"BUse {ev[1]}%N")
-        elif ev[0] == "K": evs.append(f"BUseCls {ev[1]}%N")
-        elif ev[0] == "G": evs.append(f"BGet {ev[1]}%N {ev[2]}%N")
-        elif ev[0] == "GK": evs.append(f"BGetCls {ev[1]}%N {ev[2]}%N")
-        elif ev[0] == "P": evs.append(f"BPrep {ev[1]}%N")
-        else: raise ValueError(ev)
-    return f"(mk_bcase {cq_settings(decl)} [{'; '.join(evs)}] {cq_l(obs, lambda o: cq_o(o, cq_bound))})"
+    return f"(mk_bcase {cq_settings(decl)} [{'; '.join(cq_bevent(ev) for ev in events)}] {cq_l(obs, lambda o: cq_o(o, cq_bound))})"
 
 
 def binding_cases(rng, thorough):
@@ -750,6 +812,230 @@ def held_cases(rng, thorough):
     return out
 
 
+# ------------------------------------------------------------------ constructor cases (Model/JobCtor.v)
+HEADER_C = HEADER.replace("Model.Job.", "Model.Job Model.JobCtor.")
+# The world the executable lookup sees: small real shell scripts in a scratch directory.  d1, d2 are on PATH in this
+# order, d3 is not.  (relative path, executable?)
+WORLD_PATH = ["d1", "d2"]
+WORLD_FILES = [("d1/tool", True), ("d2/tool", True), ("d3/tool", True), ("d1/alpha", True), ("d2/beta", True),
+               ("d1/plain", False), ("d2/plain", True), ("d3/gamma", True), ("d1/xtb", True), ("d3/xtb", True),
+               ("d2/deflt", True), ("d1/data.txt", False)]
+# Where each name a driver may be given leads ("@x" = the absolute path of x) -- WRITTEN DOWN from the layout, not
+# computed the way the model or shutil.which computes it.  None: unreachable.
+LOC = {"tool": "d1/tool", "alpha": "d1/alpha", "beta": "d2/beta", "plain": "d2/plain", "xtb": "d1/xtb", "deflt": "d2/deflt",
+       "@d1/tool": "d1/tool", "@d2/tool": "d2/tool", "@d3/tool": "d3/tool", "@d3/gamma": "d3/gamma", "@d3/xtb": "d3/xtb",
+       "@d2/beta": "d2/beta",
+       "gamma": None, "nothing": None, "data.txt": None, "@d1/plain": None, "@d3/missing": None, "@d1": None}
+EXE_KIND = {"tool": "bare-name-first-of-two-on-PATH", "alpha": "bare-name-on-PATH", "beta": "bare-name-on-PATH",
+            "plain": "bare-name-behind-a-non-executable-namesake", "xtb": "bare-name-on-PATH", "deflt": "bare-name-on-PATH",
+            "@d1/tool": "absolute-in-a-PATH-directory", "@d2/tool": "absolute-shadowed-on-PATH", "@d2/beta": "absolute-in-a-PATH-directory",
+            "@d3/tool": "absolute-off-PATH", "@d3/gamma": "absolute-off-PATH", "@d3/xtb": "absolute-off-PATH",
+            "gamma": "unreachable-bare-name", "nothing": "unreachable-bare-name", "data.txt": "unreachable-not-executable",
+            "@d1/plain": "unreachable-not-executable", "@d3/missing": "unreachable-absolute", "@d1": "unreachable-a-directory"}
+REACHABLE = [x for x in LOC if LOC[x] is not None and x not in ("xtb", "deflt", "@d3/xtb")]
+UNREACHABLE = [x for x in LOC if LOC[x] is None]
+# driver classes of the constructor cases: (default_executable | None = no such attribute, class attributes)
+CDECLS = [("deflt", {}), (None, {}), ("nothing", CLS_ATTRS[1]), ("deflt", CLS_ATTRS[2]), ("@d3/gamma", {})]
+MODES = ["default", "TT", "TF", "FF"]        # check_exe/find omitted (True, True) | given.  (False, True) is not generated:
+                                             # the constructor then reads an unbound local (outside the property and the model)
+
+
+class World:
+    def __init__(self, root):
+        self.root = os.path.realpath(root)
+        for rel, x in WORLD_FILES:
+            fn = os.path.join(self.root, rel)
+            os.makedirs(os.path.dirname(fn), exist_ok=True)
+            with open(fn, "w") as f:
+                f.write(f"#!/bin/sh\necho {rel}\n")
+            os.chmod(fn, 0o755 if x else 0o644)
+        os.makedirs(os.path.join(self.root, "d3"), exist_ok=True)
+
+    def real(self, spec):
+        """the string handed to the driver"""
+        return None if spec is None else (os.path.join(self.root, spec[1:]) if spec.startswith("@") else spec)
+
+    def loc(self, spec):
+        r = None if spec is None else LOC[spec]
+        return None if r is None else os.path.join(self.root, r)
+
+    def canon(self, x):
+        return x.replace(self.root, "/W") if isinstance(x, str) else x
+
+    def __enter__(self):
+        self.saved = os.environ.get("PATH")
+        os.environ["PATH"] = ":".join(os.path.join(self.root, d) for d in WORLD_PATH)
+        return self
+
+    def __exit__(self, *a):
+        if self.saved is None:
+            os.environ.pop("PATH", None)
+        else:
+            os.environ["PATH"] = self.saved
+
+    def cq(self):
+        return (f"(mk_world {cq_l(['/W/' + d for d in WORLD_PATH])} "
+                f"{cq_l(['/W/' + rel for rel, x in WORLD_FILES if x])})")
+
+
+def cq_ccase(world, decl, cdecls, events, obs):
+    cls = "; ".join(f"({k}%N, ({cq_o(world.canon(world.real(d)))}, {cq_settings(ca)}))" for k, (d, ca) in enumerate(cdecls))
+    evs, os_ = [], []
+    for ev, o in zip(events, obs):
+        if ev[0] == "N":
+            a = ev[3]
+            chk, fnd = ("true", "true") if a["mode"] == "default" else ("true" if a["mode"][0] == "T" else "false", "true" if a["mode"][1] == "T" else "false")
+            n_ = lambda n: str(n) + "%N"
+            evs.append(f"CNew {ev[1]}%N {ev[2]}%N (mk_cargs {cq_o(world.canon(world.real(a.get('exe'))))} {cq_o(a.get('nprocs'), n_)} "
+                       f"{cq_o(a.get('mem'), n_)} {cq_o(None if a.get('env') is None else list(a['env'].items()), cq_d)} {chk} {fnd})")
+            if o == ("refused",):
+                os_.append("ONew CRefused")
+            else:
+                os_.append("ONew (COk " + cq_settings(dict(exe=world.canon(o[1]), nprocs=o[2], mem=o[3], env=o[4])) + ")")
+        else:
+            evs.append("CEv (" + cq_bevent(ev) + ")")
+            os_.append("OB " + cq_o(None if o is None else (world.canon(o[0]),) + tuple(o[1:]), cq_bound))
+    return f"(mk_ccase {world.cq()} [{cls}] {cq_settings(decl)} [{'; '.join(evs)}] [{'; '.join(os_)}])"
+
+
+def ctor_args(spec, j, mode="default"):
+    """constructor arguments number j around an executable spec: distinct processor counts / memory / environments"""
+    return dict(exe=spec, nprocs=[4, None, 7, 2, 0][j % 5], mem=[None, 2000, None, 300][j % 4],
+                env=[{"A": str(j)}, None, {"B": "2", "A": "two"}, {}][j % 4], mode=mode)
+
+
+def ctor_cases(rng, thorough):
+    """Histories in which drivers are built by the REAL constructor (executable looked up in the scratch world).
+    -> [(decl, cdecls, events, vectorized, family)]"""
+    out = []
+    k = 0
+    with_default = [c for c, (d, _) in enumerate(CDECLS) if d is not None]
+
+    def pick_class(spec, pref):
+        return pref if (spec is not None or CDECLS[pref][0] is not None) else with_default[pref % len(with_default)]
+    # (a) every order of creating and using 2..3 drivers x class assignment (instances of ONE class / a class each /
+    #     mixed) x distinct executables (names on PATH, absolute paths, the class default, now and then an unreachable one)
+    for nd in (2, 3):
+        for order in binding_orders(nd):
+            for variant in range((8 if nd == 2 else 2) * (3 if thorough else 1)):
+                v = k + variant
+                specs = rng.sample(REACHABLE + [None], nd)
+                if v % 4 == 3:
+                    specs[rng.randrange(nd)] = rng.choice(UNREACHABLE)
+                base_k = v % 2                                     # class 0 (default "deflt") or 1 (no default)
+                how = v % 3                                        # 0: one class, 1: a class each, 2: first two share
+                ks = [base_k if how == 0 else ((base_k + i) % len(CDECLS) if how == 1 else (base_k if i < 2 else 3)) for i in range(nd)]
+                mode = "default" if v % 5 < 3 else MODES[1 + v % 3]
+                decl = DECLS[(v // 3) % len(DECLS)] if v % 7 == 6 else {}
+                evs = []
+                for kind, i in order:
+                    if kind == "C":
+                        evs.append(("N", i, pick_class(specs[i], ks[i]), ctor_args(specs[i], i + v, mode)))
+                    else:
+                        evs.append(("U", i))
+                evs += [("U", i) for i in range(nd)]
+                out.append((decl, CDECLS, evs, v % 6 == 5, f"ctor-orders-{nd}"))
+                k += 1
+    # (b) directed: EVERY ordered pair of executables (reachable or not) given to two instances of one class (and of two
+    #     classes in the thorough tier), used at once, obtained-and-kept, and a third instance repeating the first name
+    allspecs = list(LOC) + [None]
+    for a, b in itertools.permutations(allspecs, 2):
+        for same in ((True,) if not thorough else (True, False)):
+            ka = pick_class(a, len(out) % 2)
+            kb = ka if same else pick_class(b, (ka + 1 + len(out) % 3) % len(CDECLS))
+            kb = pick_class(b, kb)
+            if same and kb != ka:
+                ka = kb = pick_class(None, 0)
+            if a is None or b is None:          # both names are given to instances of both classes: each needs a default
+                ka, kb = pick_class(None, ka), pick_class(None, kb)
+            mode2 = "default" if len(out) % 4 else "TF"
+            evs = [("N", 0, ka, ctor_args(a, 0)), ("N", 1, kb, ctor_args(b, 1, mode2)), ("U", 0), ("U", 1),
+                   ("G", 1, 0), ("G", 0, 1), ("N", 2, ka, ctor_args(b, 2)), ("P", 0), ("P", 1), ("U", 2),
+                   ("N", 1, kb, ctor_args(a, 3, "TT")), ("U", 1), ("P", 0), ("U", 0)]
+            out.append(({}, CDECLS, evs, len(out) % 5 == 4, "ctor-pairs-one-class" if same else "ctor-pairs-two-classes"))
+    # (c) seeded random histories over all event kinds: constructor calls in every mode, drivers made with the lookup off,
+    #     reassignment, immediate / class-level / kept uses
+    for r in range(700 if thorough else 110):
+        nd = rng.choice((2, 3, 4))
+        decl = rng.choice(DECLS) if rng.random() < 0.3 else {}
+        one = rng.choice(range(len(CDECLS))) if rng.random() < 0.5 else None
+        evs, have = [], []
+
+        def new(i):
+            spec = rng.choice(REACHABLE + [None]) if rng.random() < 0.8 else rng.choice(UNREACHABLE)
+            kk = pick_class(spec, one if one is not None else rng.randrange(len(CDECLS)))
+            a = ctor_args(spec, rng.randrange(20), rng.choice(MODES) if rng.random() < 0.5 else "default")
+            return ("N", i, kk, a)
+        for i in range(nd):
+            evs.append(new(i))
+        for _ in range(rng.randint(6, 12)):
+            t = rng.choice("NNNGGPPUUUKSC" if have else "NNNGGUUUSC")
+            i = rng.randrange(nd)
+            if t == "N": evs.append(new(i))
+            elif t == "G":
+                h = rng.randrange(4); evs.append((rng.choice(["G", "G", "GK"]), i, h)); have.append(h)
+            elif t == "P": evs.append(("P", rng.choice(have)))
+            elif t in "UK": evs.append((t, i))
+            elif t == "S": evs.append(("S", i, rng.choice(SETTINGS_POOL)))
+            else: evs.append(("C", i, {}, rng.choice(SETTINGS_POOL)))
+        evs += [("U", i) for i in range(nd)] + [("P", h) for h in sorted(set(have))]
+        out.append((decl, CDECLS, evs, r % 4 == 1, "ctor-random"))
+    return out
+
+
+def ctor_stats(evs, obs):
+    """(number of pairs of live instances of one class built with different located executables, ...) for the evidence"""
+    per_class = {}
+    for ev, o in zip(evs, obs):
+        if ev[0] == "N" and o and o[0] == "new":
+            per_class.setdefault(ev[2], set()).add(o[1])
+    return max([len(x) for x in per_class.values()] or [0])
+
+
+XTB_JOBS = ("optimize_m", "energy_m", "atom_properties_m")
+
+
+def xtb_ctor_oracle(world, thorough):
+    """The shipped XTBDriver built with its DEFAULT constructor options (executable checked and located) around real
+    executables: 2..3 instances with distinct programs / processor counts, every order of creating and using."""
+    import molli as ml
+    from molli.pipeline.xtb import XTBDriver
+    mol = ml.Molecule.load_mol2(str(ml.files.dendrobine_mol2))
+    sets = [("@d3/xtb", 4), (None, 16), ("@d2/tool", 1), ("alpha", 3), ("@d3/missing", 5), ("nothing", 2)]
+    viol, n = [], 0
+    combos = [c for nd in (2, 3) for c in itertools.permutations(range(len(sets)), nd)]
+    for ci, combo in enumerate(combos):
+        nd = len(combo)
+        orders = list(binding_orders(nd))
+        if nd == 3 and not thorough:
+            orders = orders[ci % 9::9]
+        for order in orders:
+            ds = {}
+            for kind, i in order:
+                spec, npr = sets[combo[i]]
+                req = spec or "xtb"
+                if kind == "C":
+                    try:
+                        ds[i] = XTBDriver(world.real(spec), nprocs=npr) if spec is not None else XTBDriver(nprocs=npr)
+                    except FileNotFoundError:
+                        if world.loc(req) is not None:
+                            viol.append(("C17:construct:refused-although-its-executable-is-reachable:XTBDriver",
+                                         f"XTBDriver({spec!r}, nprocs={npr}) refused after creating/using {[sets[combo[j]][0] for _, j in order]} in order {order}"))
+                    continue
+                if i not in ds:
+                    continue
+                accepted = {world.real(req), world.loc(req) or world.real(req)}
+                for jobname in XTB_JOBS:
+                    cmd = getattr(ds[i], jobname).prepare(mol).commands[0][0]
+                    n += 1
+                    words = cmd.split()
+                    if words[0] not in accepted or words[words.index("-P") + 1] != str(npr):
+                        viol.append((f"C17:construct:instance-differs-from-its-arguments:XTBDriver.{jobname}",
+                                     f"XTBDriver({spec!r}, nprocs={npr}) (executable at {world.canon(str(world.loc(req)))}) produced the command "
+                                     f"{world.canon(cmd)!r}; drivers {[sets[combo[j]] for j in range(nd)]} created/used in order {order}"))
+    return n, viol
+
+
 def xtb_oracle(rng):
     """The shipped XTBDriver through every create/use order of 2..3 instances."""
     import molli as ml
@@ -806,9 +1092,19 @@ def run(ctx, rep):
                 "obtains through one driver / reassignment between obtain and use / class-level obtains / re-bound variables, "
                 "seeded random histories over all event kinds with up to 4 kept jobs; drivers as instances of ONE class or a "
                 "subclass each; vectorised jobs also kept as the lazy generator prepare returned; the shipped XTBDriver with "
-                "all obtain orders x all use orders; distinct by the history")
+                "all obtain orders x all use orders; distinct by the history. "
+                "(i') drivers built by the REAL constructor around real executables (shell scripts in a scratch world: two PATH "
+                "directories with a shadowed name, a non-executable namesake, a directory off PATH): 2..4 instances of one class / "
+                "of several classes (with / without default_executable, class attributes) given distinct executables (bare name on "
+                "PATH, absolute path on/off PATH or shadowed, class default, unreachable in 6 ways) x check_exe/find omitted or "
+                "given x distinct nprocs/memory/envars, in every order of creating and using 2..3, every ordered pair of "
+                "executables in one class, seeded random histories with all event kinds; the shipped XTBDriver with its default "
+                "constructor options over the same world; paths canonicalised to /W")
     rep.trusted += ["harness/c17.py (script renderer `sh -c`, forked run_local worker, canonicalisation of the private directory name to <cwd>, Coq literal emission)",
                     "CPython subprocess/tempfile/shlex, /bin/sh, msgpack (modelled: commands as the oracle sh_exec; TemporaryDirectory as create/remove around the body)"]
+    rep.trusted += ["shutil.which / os.access (modelled: Model/JobCtor.v `which` over the PATH directories and the executable files of the scratch world)"]
+    rep.assumptions += ["constructor calls with check_exe=False and find=True are not generated (the constructor reads an unbound local there)",
+                        "the PATH and the executable files do not change within a process (one world for all constructor histories)"]
     rep.assumptions += ["commands do not touch the capture files <name>.out/.err and command names are distinct (hypotheses of C17_capture)",
                         "requested file names are plain relative names (str(Path(f)) == f)",
                         "commands can be spawned (a missing program makes run_local raise: outside the model)",
@@ -864,12 +1160,45 @@ def run(ctx, rep):
     for sig, text in xviol:
         rep.violate(sig, text, {"kind": "xtb"})
     bbad = vlib.run_shards(ctx, rep, "c17b", HEADER, "check_bcase", bterms, shard=60, case_type="bcase")
+    # ---- (i') drivers built by the real constructor around real executables
+    cterms, cmeta = [], []
+    with World(ctx.sub("c17_world")) as world:
+        for decl, cdecls, evs, vec, fam in ctor_cases(rng, ctx.thorough):
+            o, viol = run_binding_case(P, decl, evs, vec, cdecls=cdecls, world=world)
+            t = cq_ccase(world, effective_decl(decl, vec), cdecls, evs, o)
+            cterms.append(t); cmeta.append((decl, evs, vec))
+            rep.case(key=t + ("/vec" if vec else ""),
+                     sample={"decl": decl, "events": [list(e[:4]) for e in evs], "family": fam,
+                             "obs": [[world.canon(x) for x in ob] if ob else ob for ob in o]} if len(cterms) % 53 == 5 else None)
+            rep.count("ctor:family:" + fam)
+            rep.count("ctor:vectorized" if vec else "ctor:single")
+            rep.count(f"ctor:most-distinct-located-executables-among-instances-of-one-class:{ctor_stats(evs, o)}")
+            for ev, ob in zip(evs, o):
+                if ev[0] != "N":
+                    continue
+                spec = ev[3]["exe"]
+                rep.count("ctor:executable:" + (EXE_KIND[spec] if spec is not None else "class-default:" + EXE_KIND[cdecls[ev[2]][0]]))
+                rep.count("ctor:check_exe/find:" + ev[3]["mode"])
+                rep.count("ctor:outcome:" + ("refused" if ob == ("refused",) else "created"))
+                rep.count("ctor:nprocs:" + ("omitted" if ev[3]["nprocs"] is None else "given"))
+                rep.count("ctor:envars:" + ("none" if ev[3]["env"] is None else ("empty" if not ev[3]["env"] else "given")))
+            rep.count("ctor:events:use-at-once", sum(e[0] in ("U", "K") for e in evs))
+            rep.count("ctor:events:obtain-and-keep", sum(e[0] in ("G", "GK") for e in evs))
+            rep.count("ctor:events:use-kept-job", sum(e[0] == "P" for e in evs))
+            rep.count("ctor:events:created-with-the-lookup-off-or-reassigned", sum(e[0] in ("C", "S") for e in evs))
+            for sig, text in viol:
+                rep.violate(sig, text, {"kind": "ctor", "decl": decl, "cdecls": cdecls, "events": evs, "vec": vec})
+        nxc, xcviol = xtb_ctor_oracle(world, ctx.thorough)
+    rep.count("ctor:xtb-prepare-calls", nxc)
+    for sig, text in xcviol:
+        rep.violate(sig, text, {"kind": "xtb-ctor"})
+    cbad = vlib.run_shards(ctx, rep, "c17c", HEADER_C, "check_ccase", cterms, shard=60, case_type="ccase")
     # ---- verdict on broken obligations
     known = {k["signature"] for k in vlib.load_known() if k["property"] == "C17" and k.get("status") == "known"}
     found = bool([v for v in rep.violations if v.sig not in known])
     if not ok:
         vlib.broken_obligation(rep, "C17_props", f"{where}\n{out[-1500:]}", found)
-    for name, b, metas in (("corr_c17r", bad, cases), ("corr_c17b", bbad, bmeta)):
+    for name, b, metas in (("corr_c17r", bad, cases), ("corr_c17b", bbad, bmeta), ("corr_c17c", cbad, cmeta)):
         if b is None:
             vlib.broken_obligation(rep, name, "a correspondence shard did not compile: " + str(rep.extra.get("shard_errors"))[-1500:], found)
         elif b:
@@ -910,6 +1239,14 @@ def replay(ctx, data):
         out += [vlib.Violation(s, t) for s, t in viol]
     elif data.get("kind") == "xtb":
         out += [vlib.Violation(s, t) for s, t in xtb_oracle(ctx.rng)[1]]
+    elif data.get("kind") == "ctor":
+        evs = [tuple(e) for e in data["events"]]
+        with World(ctx.sub("c17_world_replay")) as world:
+            _, viol = run_binding_case(P, data["decl"], evs, data["vec"], cdecls=[tuple(c) for c in data["cdecls"]], world=world)
+        out += [vlib.Violation(s, t) for s, t in viol]
+    elif data.get("kind") == "xtb-ctor":
+        with World(ctx.sub("c17_world_replay")) as world:
+            out += [vlib.Violation(s, t) for s, t in xtb_ctor_oracle(world, False)[1]]
     return out
 
 
